@@ -94,10 +94,19 @@ def repo_facts():
     raises = [n for n in ast.walk(dts) if isinstance(n, ast.Raise)]
     assert raises and all('ReplicatError' in ast.unparse(r) for r in raises), 'digest mismatch must raise'
     assert not [n for n in ast.walk(dts) if isinstance(n, ast.Try) and any('ReplicatError' in ast.unparse(h) or h.type is None for h in n.handlers)]
+    # the only failure that is tolerated there is a missing cache entry: the download of a listed snapshot that fails, fails the
+    # command (a snapshot left out of the loaded set would lose its chunks to the next clean / delete)
+    tries = [n for n in ast.walk(dts) if isinstance(n, ast.Try)]
+    assert all([ast.unparse(b) for b in t.body] == ['contents = self._get_cached(path)'] and
+               [ast.unparse(h.type) for h in t.handlers] == ['FileNotFoundError'] for t in tries), \
+        'only the cache lookup may be guarded in _download_snapshot_threadsafe'
+    assert 'contents = self._download_threadsafe(path, loop=loop)' in ast.unparse(dts)
+    assert [ast.unparse(n) for n in ast.walk(dts) if isinstance(n, ast.Return)] == ['return body'], 'every loaded snapshot yields its body'
     body_async_for = [n for n in ast.walk(ls) if isinstance(n, ast.AsyncFor)]
     assert not [n for f in body_async_for for n in ast.walk(f) if isinstance(n, ast.Try)], 'no error swallowing while collecting snapshots'
     out.append('Definition fact_load_skips_foreign_tags : bool := true.')
     out.append('Definition fact_load_aborts_on_corrupted_snapshot : bool := true.')
+    out.append('Definition fact_load_fails_when_a_listed_snapshot_cannot_be_downloaded : bool := true.')
     dec = ast.unparse(pyast.find_func(R, '_decrypt_snapshot_body'))
     _pos(dec, "data = self.props.decrypt(body['data'], self.props.userkey)")
     i_exc = _pos(dec, "except exceptions.DecryptionError:")
